@@ -99,6 +99,8 @@ def run_property(prop: str, tier: str, seed: int, repo: Repo = None, write_evide
         if tier == "thorough":
             from gbsa import selftest as st
             selftest = st.run_for_property(prop, spec["rules"], repo, seed)
+            from gbsa import fixtures
+            selftest["fixtures"] = fixtures.run(prop, spec["rules"], repo)
     except AnalysisError as e:
         print(f"ANALYSIS-ERROR property={prop} {e}")
         return 2
@@ -157,6 +159,17 @@ def run_property(prop: str, tier: str, seed: int, repo: Repo = None, write_evide
                 out(f"      [inapplicable] {r['name']}: {r['detail']}")
         if selftest.get("degraded_rules"):
             out(f"  self-validation degraded (no applicable breaking variant): {', '.join(selftest['degraded_rules'])}")
+        fx = selftest.get("fixtures")
+        if fx:
+            out(f"  recorded changes replayed on the current tree: {fx['seeds_caught']}/{fx['seeds']} seeded property-breaking "
+                f"changes reported, {fx['refactorings_silent']}/{fx['refactorings']} behaviour-preserving refactorings silent, "
+                f"{fx['inapplicable']} inapplicable, {fx['failed']} failed, {fx['wall_s']} s")
+            for r in fx["results"]:
+                if r["status"] == "inapplicable":
+                    out(f"      [inapplicable] {r['kind']} {r['id']}: {r['detail']}")
+            for r in fx["failures"]:
+                print(f"SELFTEST-FAIL fixture={r['kind']} {r['id']}: {r['detail'][:300]}")
+            selftest["failed"] += fx["failed"]
         if selftest["failed"]:
             for r in selftest["failures"]:
                 print(f"SELFTEST-FAIL rule={r['rule']} kind={r['kind']} {r['name']}: {r['detail'][:300]}")
@@ -218,6 +231,16 @@ def write_evidence_file(prop, tier, seed, spec, results, violations, known_hits,
         cov["self_validation"]["samples"] = [
             {"rule": r["rule"], "kind": r["kind"], "variant": r["name"], "status": r["status"], "report": r["detail"][:200]}
             for r in selftest.get("results", [])[:40]]
+        fx = selftest.get("fixtures")
+        if fx:
+            cov["recorded_changes_replayed"] = {
+                "what": ("unified diffs committed under /verif/seeded (property-breaking changes written by independent sub-agents, "
+                         "suite-passing, demonstration confirmed) and /verif/benign (behaviour-preserving refactorings written by "
+                         "independent sub-agents) are applied IN MEMORY to the current source and the property's rules re-run: "
+                         "every seed that targets this property must be reported, every refactoring must stay silent; nothing is executed"),
+                **{k: fx[k] for k in ("seeds", "seeds_caught", "refactorings", "refactorings_silent", "inapplicable", "failed", "wall_s")},
+                "results": [{"kind": r["kind"], "id": r["id"], "status": r["status"], "report": r["detail"][:160]} for r in fx["results"]],
+            }
     ev = {
         "property_id": prop,
         "tier": tier,
